@@ -1,6 +1,7 @@
 //! Correspondence harness: runs the real woodpile crates on case files and prints one JSON
 //! observation (a list of fields, each a list of numbers) per case.  See DESIGN.md section 4.2.
 mod util;
+mod readn;
 mod sdq;
 mod sod;
 mod tlvv;
@@ -33,6 +34,7 @@ fn main() {
         }
         let obs: util::Obs = match family {
             "win" => win::run(line),
+            "readn" => readn::run(line),
             "sdq" => sdq::run(line),
             "sod" => sod::run(line),
             "tlvv" => tlvv::run(line),
